@@ -22,6 +22,9 @@ type HelloPingHandler struct {
 	r *Router
 
 	sendLock sync.Mutex
+	// handled holds the sequence time of the newest hello ping handled per
+	// router. It is only accessed with the send lock held.
+	handled map[netip.Addr]time.Time
 
 	active     map[netip.Addr]*helloPingState
 	activeLock sync.Mutex
@@ -49,8 +52,9 @@ var closedNotify = func() <-chan struct{} {
 // NewHelloPingHandler returns a new hello ping handler.
 func NewHelloPingHandler(r *Router) *HelloPingHandler {
 	return &HelloPingHandler{
-		r:      r,
-		active: make(map[netip.Addr]*helloPingState),
+		r:       r,
+		handled: make(map[netip.Addr]time.Time),
+		active:  make(map[netip.Addr]*helloPingState),
 	}
 }
 
@@ -78,12 +82,37 @@ func (h *HelloPingHandler) setActive(remote netip.Addr, helloState *helloPingSta
 	h.active[remote] = helloState
 }
 
+// inOrder reports whether the given hello ping is newer than every hello ping
+// of its sender handled so far, and remembers it as the newest one if so.
+// Frames are handled by several workers: a frame may pass the sequence check
+// of its session before a newer frame does, and still get here after it. All
+// key setup decisions assume that the pings of a router are handled in the
+// order they were sent in, so a ping that was overtaken is dropped - as it
+// would have been, had the newer one reached the sequence check first.
+// The send lock must be held.
+func (h *HelloPingHandler) inOrder(f frame.Frame) bool {
+	if !f.SequenceTime().After(h.handled[f.SrcIP()]) {
+		return false
+	}
+	h.handled[f.SrcIP()] = f.SequenceTime()
+	return true
+}
+
 // Clean cleans any internal state of the ping handler.
 func (h *HelloPingHandler) Clean(w *mgr.WorkerCtx) error {
+	now := time.Now()
+
+	h.sendLock.Lock()
+	for remote, seqTime := range h.handled {
+		if now.Sub(seqTime) > 10*time.Minute {
+			delete(h.handled, remote)
+		}
+	}
+	h.sendLock.Unlock()
+
 	h.activeLock.Lock()
 	defer h.activeLock.Unlock()
 
-	now := time.Now()
 	for remote, helloState := range h.active {
 		if now.After(helloState.expires) {
 			delete(h.active, remote)
@@ -197,6 +226,11 @@ func (h *HelloPingHandler) handlePingHelloRequest(w *mgr.WorkerCtx, f frame.Fram
 	h.sendLock.Lock()
 	defer h.sendLock.Unlock()
 
+	// Drop requests that were overtaken by a newer hello ping.
+	if !h.inOrder(f) {
+		return errors.New("hello request was overtaken by a newer hello ping")
+	}
+
 	// Resolve simultaneous hello pings.
 	// If both routers start a key setup with each other at the same time, both
 	// would serve the other's request on their live session and then replace it
@@ -256,6 +290,19 @@ func (h *HelloPingHandler) handlePingHelloResponse(w *mgr.WorkerCtx, f frame.Fra
 	response := HelloPingResponse{}
 	if err := cbor.Unmarshal(data, &response); err != nil {
 		return fmt.Errorf("unmarshal response: %w", err)
+	}
+
+	// Completing an own key setup must not interleave with serving a request
+	// of the remote router (or with starting another setup): frames are handled
+	// by several workers. A request handled between marking the own setup as
+	// done and installing its keys would be served on the session that is about
+	// to be replaced - and both routers would keep the keys of their own setup.
+	h.sendLock.Lock()
+	defer h.sendLock.Unlock()
+
+	// Drop responses that were overtaken by a newer hello ping.
+	if !h.inOrder(f) {
+		return errors.New("hello response was overtaken by a newer hello ping")
 	}
 
 	// Get ping state.
